@@ -62,7 +62,7 @@ C06ok(tr) ==
   (OneSink(tr) /\ ep # 0) =>
      /\ \A q \in (ep + 1)..Len(f) : ~(IsAttempt(f[q]) /\ f[q].e.v = 1)          \* every source sees is_subscribed() = false before its next emission
      /\ \A i \in f[ep].i..Len(tr) : tr[i].fin \in {"ok", "stuck"}                \* producers stop (no exhausted budget); `stuck` is C07's business
-     /\ \A i \in f[ep].i..Len(tr) : tr[i].fin = "ok" => \A j \in 1..Len(tr[i].cnt) : tr[i].cnt[j] = 0     \* hot sources no longer hold the observer
+     /\ \A i \in f[ep].i..Len(tr) : tr[i].fin = "ok" => \A j \in 1..Len(tr[i].cnt) : tr[i].cnt[j] \in {0, -1}     \* hot sources no longer hold the observer (-1 = count not observable)
 
 \* amb's losers: once another input has signalled, a losing input sees is_subscribed() = false at the latest from its second
 \* attempt on (the attempt that discovers it may still see true, and is not delivered).  Stated for amb over two instrumented inputs.
